@@ -254,7 +254,12 @@ func runBinary(c *ProcCase, variant string) (res procResult, trouble error) {
 					res.injected = true
 					break
 				}
-				if c.Strace.Syscall == "read" && strings.Contains(l, " read(") {
+				// a call may be logged in two pieces when threads interleave:
+				// `read(5, <unfinished ...>` ... `<... read resumed>"...", 512) = 512`
+				if strings.Contains(l, "<unfinished") {
+					continue
+				}
+				if c.Strace.Syscall == "read" && (strings.Contains(l, " read(") || strings.Contains(l, "read resumed>")) {
 					if i := strings.LastIndex(l, "= "); i >= 0 {
 						if n, err := strconv.Atoi(strings.TrimSpace(l[i+2:])); err == nil {
 							if n > 0 {
